@@ -8,6 +8,8 @@
 //	                   `if` filters) and a later statement of the same block list sorts that slice
 //	                   (sort.Strings/Ints/Float64s/Slice/SliceStable/Sort/Stable(s...) or slices.Sort*(s...))
 //	                   before anything else reads it
+//	sorted-by-key      as sorted-after, but the sort compares a DERIVED key (less function other than s[i] < s[j], a Less
+//	                   method): canonical only if the key is injective on the collected elements — must be audited
 //	order-insensitive  the body only does: m[k] = v into a map, delete(m,k), n++ / n-- / n += e,
 //	                   flag = true/false, flag = flag || e, flag = flag && e, `continue`, and `if`s over
 //	                   these with call-free conditions; every right-hand side is call-free
@@ -276,6 +278,48 @@ func lenOnlyGuard(st ast.Stmt, target string) bool {
 	return good
 }
 
+// sortKey: "" when the sort orders the collected elements by THEMSELVES (sort.Strings/Ints/Float64s, slices.Sort, or a
+// less function that is exactly `s[i] < s[j]` / `s[i] > s[j]`): the elements come out of a map's key set, so they are
+// pairwise distinct and the order is total.  Otherwise the printed comparison: the sort is by a derived key
+// (strings.ToLower(s[i]), s[i].pos, a Less method …) and is only canonical if that key is INJECTIVE on the elements —
+// which the syntax cannot tell (Lean: nodup_keys_needed).
+func sortKey(fn string, c *ast.CallExpr, target string) string {
+	switch fn {
+	case "sort.Strings", "sort.Ints", "sort.Float64s", "slices.Sort":
+		return ""
+	case "sort.Sort", "sort.Stable":
+		return "Less method of " + show(c.Args[0])
+	}
+	if len(c.Args) < 2 {
+		return "unknown comparison"
+	}
+	fl, ok := c.Args[1].(*ast.FuncLit)
+	if !ok {
+		return "comparison function " + show(c.Args[1])
+	}
+	if len(fl.Body.List) == 1 {
+		if r, ok := fl.Body.List[0].(*ast.ReturnStmt); ok && len(r.Results) == 1 {
+			if b, ok := r.Results[0].(*ast.BinaryExpr); ok && (b.Op == token.LSS || b.Op == token.GTR) {
+				names := []string{}
+				for _, f := range fl.Type.Params.List {
+					for _, n := range f.Names {
+						names = append(names, n.Name)
+					}
+				}
+				if len(names) == 2 {
+					l, r2 := show(b.X), show(b.Y)
+					a, bb := target+"["+names[0]+"]", target+"["+names[1]+"]"
+					if (l == a && r2 == bb) || (l == bb && r2 == a) || (l == names[0] && r2 == names[1]) || (l == names[1] && r2 == names[0]) {
+						return ""
+					}
+				}
+			}
+			return show(r.Results[0])
+		}
+	}
+	return "multi-statement comparison function"
+}
+
 // sortedAfter: among the statements following the range in its block, the FIRST one that mentions the
 // slice is a sort call whose first argument is (a conversion of) the slice.
 func sortedAfter(info *types.Info, rest []ast.Stmt, target string) (bool, string) {
@@ -306,6 +350,9 @@ func sortedAfter(info *types.Info, rest []ast.Stmt, target string) (bool, string
 		}
 		if show(a0) != target {
 			return false, fn + " does not sort " + target
+		}
+		if k := sortKey(fn, c, target); k != "" {
+			return true, "BYKEY " + fn + "(" + target + ") orders by a DERIVED key: " + k
 		}
 		return true, fn + "(" + target + ")"
 	}
@@ -393,6 +440,9 @@ func classify(info *types.Info, rs *ast.RangeStmt, rest []ast.Stmt) (string, str
 	target := ""
 	if t, ok := indexFill(info, rs.Body.List); ok {
 		if ok, d := sortedAfter(info, rest, t); ok {
+			if strings.HasPrefix(d, "BYKEY ") {
+				return "sorted-by-key", d[6:]
+			}
 			return "sorted-after", d
 		} else {
 			return "other", "fills " + t + " but " + d
@@ -400,6 +450,9 @@ func classify(info *types.Info, rs *ast.RangeStmt, rest []ast.Stmt) (string, str
 	}
 	if len(rs.Body.List) > 0 && onlyAppends(info, rs.Body.List, &target) && target != "" {
 		if ok, d := sortedAfter(info, rest, target); ok {
+			if strings.HasPrefix(d, "BYKEY ") {
+				return "sorted-by-key", d[6:]
+			}
 			return "sorted-after", d
 		} else {
 			return "other", "collects into " + target + " but " + d
